@@ -415,6 +415,11 @@ func (s *scope) resolve(key instanceKey, descriptor *Descriptor) (any, error) {
 			return instance, nil
 		}
 
+		// A provider that is being closed has already dropped its singletons
+		if atomic.LoadInt32(&s.rootProvider.disposed) != 0 {
+			return nil, ErrProviderDisposed
+		}
+
 		// Singleton should have been created at build time
 		return nil, &ResolutionError{
 			ServiceType: key.Type,
